@@ -8,6 +8,7 @@
      sem  <id> <verdict code>
      psem <id> <verdict code>
      rows <id> <statement index> <code> <fp:value:timestamp_ms>...
+     down <id> <verdict code> <number of rows the down-sampled statement yields>
    Atoms: decimal integers (any size), t / f, none, constructor names, strings as h<hex bytes>. *)
 open Promsel
 
@@ -175,6 +176,11 @@ let handle (x : sx) : unit =
                pe_sels = list_of selector_of sels; pe_series = list_of pstored_of series; pe_impl = select_of tree;
                pe_text = str_of text; pe_search = tbl_of search; pe_full = tbl_of full } in
     Printf.printf "psem %d %d\n" (int_of id) (int_of_z (psem_verdict pe))
+  | L [A "down"; id; cluster; h; ms; db; tree; text; search; full] ->
+    let dc = { dn_id = z_of id; dn_cluster = bool_of cluster; dn_hints = hints_of h; dn_ms = list_of matcher_of ms; dn_db = db_of db;
+               dn_impl = select_of tree; dn_text = str_of text; dn_search = tbl_of search; dn_full = tbl_of full } in
+    let (code, rows) = down_verdict dc in
+    Printf.printf "down %d %d %d\n" (int_of id) (int_of_z code) (List.length rows)
   | L [A "rows"; id; idx; db; tree; text; search] ->
     let (code, rows) = engine_rows (select_of tree) (str_of text) (db_of db) (tbl_of search) in
     Printf.printf "rows %d %d %d" (int_of id) (int_of idx) (int_of_z code);
